@@ -2,10 +2,10 @@
 import importlib, json, math, random
 from .. import tlc, gen, common
 
-EQSETS = [["s", "f", "k"], ["s"], ["s", "k"], ["k", "f"], ["f", "s"]]
+EQSETS = [["s", "f", "k", "u"], ["s"], ["s", "k"], ["k", "f"], ["f", "s"], ["u"], ["u", "s"]]
 
 
-def consts(start4, dt4, n, kv='{0,3,5}', ops='{"Step","Steps","Stream"}'):
+def consts(start4, dt4, n, kv='{0,3,5}', ops='{"Step","Steps","Stream","Batch"}'):
     return dict(Start4=str(start4), Dt4=str(dt4), N=str(n), K0='1', KVals=kv, Ops=ops)
 
 
@@ -16,11 +16,12 @@ def build(start4, dt4, n):
     k = m.constant("k"); k.equation = 1.0
     f = m.flow("f"); f.equation = k
     s = m.stock("s"); s.initial_value = 0.0; s.equation = f
+    u = m.stock("u"); u.initial_value = k; u.equation = f       # a stock whose initial value is the constant
     return m
 
 
 def want_row(r, eqs):
-    vals = {"s": r["s4"] / 4.0, "f": float(r["k"]), "k": float(r["k"])}
+    vals = {"s": r["s4"] / 4.0, "u": r["u4"] / 4.0, "f": float(r["k"]), "k": float(r["k"])}
     return r["t4"] / 4.0, {e: vals[e] for e in eqs}
 
 
@@ -31,7 +32,7 @@ START = [0.0]
 def shadow_ok(d, eqs):
     for e in d:
         for t, v in d[e].items():
-            want = K_SHADOW * (float(t) - START[0]) if e == "s" else K_SHADOW
+            want = K_SHADOW * (float(t) - START[0]) + (K_SHADOW if e == "u" else 0.0) if e in ("s", "u") else K_SHADOW
             if not math.isclose(float(v), want, abs_tol=1e-9):
                 return "%s(%s) = %s, expected %s" % (e, t, v, want)
     return None
@@ -85,8 +86,12 @@ def replay_api(hist, start4, dt4, n, eqs):
     try:
         b.register_model(build(start4, dt4, n), scenario_manager="sm", scenario={"base": {"constants": {"k": 1.0}}, "zz": {"constants": {"k": K_SHADOW}}})
         START[0] = start4 / 4.0
+        if hist and hist[0]["op"] == "Batch":       # the memo of the scenario is full when the session begins
+            b.run_scenarios(scenario_managers=["sm"], scenarios=["base", "zz"], equations=["s", "f", "k", "u"], return_format="df")
         b.begin_session(scenarios=["base", "zz"], scenario_managers=["sm"], equations=eqs)
         for h in hist:
+            if h["op"] == "Batch":
+                continue
             got = [proj_step(b.run_step(settings=settings(h["set"])), eqs) for _ in range(h["n"])]
             bad = rows_equal(got, h["rows"], eqs)
             if bad:
@@ -135,11 +140,14 @@ def replay_rest(hist, start4, dt4, n, eqs, flat):
         def proj(x):
             if flat and isinstance(x, dict) and "sm" in x:       # flat: {sm: {sc: {eq: v}}} without times
                 zz = x["sm"].get("zz", {})
-                if any(e != "s" and not math.isclose(float(v), K_SHADOW, abs_tol=1e-9) for e, v in zz.items()):
+                if any(e not in ("s", "u") and not math.isclose(float(v), K_SHADOW, abs_tol=1e-9) for e, v in zz.items()):
                     return ("bad", "scenario zz (which never received settings): %s" % zz)
                 return ("flat", {e: float(v) for e, v in x["sm"]["base"].items()})
             return proj_step(x, eqs)
         for h in hist:
+            if h["op"] == "Batch":
+                c.post("/run", data=json.dumps({"scenario_managers": ["sm"], "scenarios": ["base", "zz"], "equations": eqs}), **hdr)
+                continue
             body = {"settings": settings(h["set"])}
             if flat:
                 body["flatResults"] = True
@@ -229,7 +237,7 @@ def run(tier, replay_file=None):
     R.cov["states"], R.cov["transitions"] = 0, 0
     n_hist = 0
     for start4, dt4, n in specs:
-        mc = tlc.run("Session", dict(consts(start4, dt4, n), L='99'), invariants=["OnGrid", "WithinRun", "Euler"], properties=["AppendOnly"],
+        mc = tlc.run("Session", dict(consts(start4, dt4, n), L='99'), invariants=["OnGrid", "WithinRun", "Euler", "EulerU", "InitialU"], properties=["AppendOnly"],
                      view="View", spec="Spec", timeout=3000)
         if mc.violation:
             R.violation("spec:" + mc.violation, {"trace": mc.trace[:2000]})
